@@ -161,7 +161,7 @@ def main(argv=None):
         print('CHECKER-ERROR property=%s cannot load contracts' % prop)
         return 3
     meta = getattr(mod, 'META', {})
-    replay_dir = os.path.join(ROOT, 'replays', prop)
+    replay_dir = os.path.join(os.environ.get('VERIF_REPLAY_ROOT') or os.path.join(ROOT, 'replays'), prop)
     if os.path.isdir(replay_dir):
         for f in os.listdir(replay_dir):
             os.unlink(os.path.join(replay_dir, f))
